@@ -252,6 +252,12 @@ def get_docs(log, yaml_editor, yaml_file):
 
         docs.append(yaml_data)
 
+    # A source which holds no document at all -- an empty file, or nothing
+    # but comments -- is the one empty document which the same text already
+    # is when it arrives via STDIN.
+    if docs_loaded and len(docs) < 1:
+        docs.append(None)
+
     return (docs, docs_loaded)
 
 def get_doc(log, docs, index):
